@@ -306,6 +306,15 @@ class RefAnalysis(Analysis):
         if r0 is not None and r0.k == "MemberExpr" and path(r0) is not None and \
                 name in self.locals and name not in self.params:
             st = sset(st, "D:" + name, path(r0))
+            return st
+        # a pointer derived from such a copy (item = data + 1, end = data + len)
+        b = r0
+        while b is not None and b.k == "BinaryOperator" and b.v in ("+", "-"):
+            a0, a1 = strip(b.kids[0]), strip(b.kids[1])
+            b = a0 if (a0 is not None and (a0.t or "").rstrip().endswith("*")) else a1
+        if b is not None and b.k == "DeclRefExpr" and sget(st, "D:" + b.n) is not None and \
+                name in self.locals and name not in self.params and b.n != name:
+            st = sset(st, "D:" + name, sget(st, "D:" + b.n))
         return st
 
     def _detach(self, st, pred):
